@@ -713,8 +713,10 @@ func GetAPSource(val *fastjson.Value) Source {
 		return s
 	}
 
-	if contBytes := val.Get("source", "content").GetStringBytes(); len(contBytes) > 0 {
-		s.Content.UnmarshalJSON(contBytes)
+	if src := val.Get("source"); src != nil {
+		if cont := JSONGetNaturalLanguageField(src, "content"); len(cont) > 0 {
+			s.Content = cont
+		}
 	}
 	if mimeBytes := val.Get("source", "mediaType").GetStringBytes(); len(mimeBytes) > 0 {
 		s.MediaType.UnmarshalJSON(mimeBytes)
